@@ -44,7 +44,7 @@ ATTR_SHIFT = 1 << 21
 WFIX = True
 SPLIT = True
 NQUICK = 170
-NAIMED = 84
+NAIMED = 90
 NSPLIT = 36
 
 # --------------------------------------------------------------------------------------------
@@ -320,7 +320,7 @@ def gen_aimed(rng, quick, k):
     rows = rng.choice([3, 4, 5, 6, 8, 10])
     cols = rng.choice([8, 10, 20, 20, 40])
     h = rows - 1
-    shape = ['top-O', 'bot-o', 'mid-i', 'ai', 'bot-J', 'put', 'bot-dd', 'horiz', 'horiz', 'scrollmix', 'sticky', 'bot-o', 'top-back', 'cput'][k % 14]
+    shape = ['top-O', 'bot-o', 'mid-i', 'ai', 'bot-J', 'put', 'bot-dd', 'horiz', 'horiz', 'scrollmix', 'sticky', 'bot-o', 'top-back', 'cput', 'c-below'][k % 15]
     n = rng.choice([h, h + 1, 2 * h + 1, 3 * h + 2, 4 * h + 1])
     style = 'plain' if shape not in ('horiz',) else 'mixed'
     lines = gen_lines(rng, n, cols, style)
@@ -345,6 +345,11 @@ def gen_aimed(rng, quick, k):
         rows = rng.choice([4, 5, 6, 8, 10, 12, 16, 24])
         h = rows - 1
         n = rng.choice([h, h + 1, h + 3, 2 * h + 1, 3 * h + 2])
+        lines = gen_lines(rng, n, cols, 'plain')
+    if shape == 'c-below':
+        rows = rng.choice([4, 5, 6, 8, 11])
+        h = rows - 1
+        n = rng.choice([2 * h + 3, 3 * h + 2, 4 * h + 1])
         lines = gen_lines(rng, n, cols, 'plain')
     g = Gen(rng, rows, cols, n)
     e = lambda x: x.encode() if isinstance(x, str) else x
@@ -412,6 +417,18 @@ def gen_aimed(rng, quick, k):
             A += rng.choice(places)() + [colm(), reg + cntp() + rng.choice([b'p', b'P'])]
             A += rng.choice([undo3(), undo3(), [rng.choice([b'', b'2', b'3']) + b'.'], [rng.choice([b'2', b'3', b'4']) + b'.', b'u'], [], [g.scroll(), b'u']])
         A = [a for a in A if a]
+    elif shape == 'c-below':
+        # the change operator on a region of several lines whose LAST line is below the last row of the window, started on a row
+        # that has rows below it: the preview vi_drawfix(r1, r2, 1, 1) draws the rows under the placeholder from the lines after the
+        # region (a displacement larger than the window is high); judged inside the insert and after it (an older seeded change
+        # of that displacement was only met by chance)
+        nz = lambda v: v + 1 if '0' in str(v) else v
+        for rnd in range(2):
+            t = rng.range(1, max(1, n - 2 * h - 2))
+            A += rng.choice([[e('%dG' % t), b'z\n'], [e('%dz\n' % t), b'H'], [b'1G'], [e('%dG' % t), b'z\n', b'j'], [e('%dG' % t), b'z\n', e('%dj' % rng.range(1, max(1, h - 2)))]])
+            far = nz(rng.choice([h, h + 1, h + 2, 2 * h]))
+            cmd = rng.choice([e('c%dj' % far), e('%dcc' % nz(far + 1)), b'cG', e('c%dG' % nz(min(n, t + far + 1))), e('c%dj' % far)])
+            A += [cmd + rng.choice([g.text(), ml_text(rng, h), b'new'])+ ESC] + undo3() + [g.scroll()]
     elif shape == 'top-back':
         # an operator whose backward line motion starts on the first row of a scrolled window: the change begins above the window
         back = lambda: rng.choice([b'k', b'-', b'2k', b'1G', b'{', b'H', e('%dk' % h)])
